@@ -219,7 +219,7 @@ func (sp *speller) expr(e *Expr) {
 			sp.expr(e.B)
 		}
 	case KMultiList:
-		sp.multiList(e)
+		sp.multiList(e, false)
 	case KMultiHash:
 		sp.multiHash(e)
 	case KFunc:
@@ -231,14 +231,15 @@ func (sp *speller) expr(e *Expr) {
 	}
 }
 
-func (sp *speller) multiList(e *Expr) {
+func (sp *speller) multiList(e *Expr, afterDot bool) {
 	sp.emit("[")
 	for i, it := range e.Items {
 		if i > 0 {
 			sp.emit(",")
 		}
-		if sp.mode == Min && len(e.Items) == 1 && isBareStar(it) {
-			// "[*]" would be the list wildcard, not a one-member multi-select
+		if sp.mode == Min && len(e.Items) == 1 && isBareStar(it) && !afterDot {
+			// "[*]" would be the list wildcard, not a one-member multi-select (behind a dot it is the multi-select: the grammar has
+			// no list wildcard there)
 			sp.paren(it)
 			continue
 		}
@@ -333,7 +334,7 @@ func (sp *speller) step(s Step, bare bool) {
 		}
 	case SMultiList:
 		dot()
-		sp.multiList(s.X)
+		sp.multiList(s.X, true)
 	case SMultiHash:
 		dot()
 		sp.multiHash(s.X)
